@@ -416,6 +416,10 @@ pub fn tlv_suffixes(path_trace_on: bool) -> Vec<(String, Vec<Tlv>, Vec<u8>)> {
     v.push(("zero-length-tlv".into(), vec![Tlv { typ: 0x4000, value: vec![] }], vec![]));
     v.push(("odd-length".into(), vec![Tlv { typ: 0x4000, value: vec![1, 2, 3] }], vec![]));
     v.push(("truncated".into(), vec![], vec![0x40, 0x00, 0x00, 0x08, 1, 2]));
+    // two odd-length TLVs: the suffix as a whole has an even length
+    v.push(("two-odd-propagating-first".into(), vec![Tlv { typ: 0x4000, value: vec![7; 7] }, Tlv { typ: 0x8001, value: vec![8; 7] }], vec![]));
+    v.push(("two-odd-propagating-second".into(), vec![Tlv { typ: 0x8001, value: vec![8; 7] }, Tlv { typ: 0x4000, value: vec![7; 7] }], vec![]));
+    v.push(("two-odd-both-propagating".into(), vec![Tlv { typ: 0x4000, value: vec![7; 7] }, Tlv { typ: 0x4001, value: vec![9; 5] }], vec![]));
     v.push(("trailing-2".into(), vec![Tlv { typ: 0x4000, value: vec![1, 2] }], vec![0, 0]));
     for n in [0usize, 1, 2, 117, 118, 119, 120, 127, 128, 129, 200, 240] {
         let mut val = vec![];
